@@ -53,6 +53,15 @@ Theorem C18_recovered_builder_meets_every_plan_oracle :
 Proof. exact rec_oracles_on_model. Qed.
 Print Assumptions C18_recovered_builder_meets_every_plan_oracle.
 
+(* ... and every ill-formed call is rejected at that very call, however many rejected calls were caught before it:
+   the calls at which the recovering model builder raises an error ([berrs_regs]: index of the call and the error of
+   [add]) are exactly the calls that the name bookkeeping rejects ([rec_errs], which the suite compares with the
+   panics of the real builder) *)
+Theorem C18_every_ill_formed_call_is_rejected_at_the_call_also_after_recovery :
+  forall rs, regs_times_ok rs -> berrs_regs rs empty_builder O = rec_errs rs.
+Proof. exact rec_errs_are_the_builders. Qed.
+Print Assumptions C18_every_ill_formed_call_is_rejected_at_the_call_also_after_recovery.
+
 Example C18_example_recover :
   let rs := [RSys 1 [97] [] [] [5] 3%Z; RSys 2 [97] [] [] [6] 3%Z; RSys 3 [] [[120]] [] [7] 3%Z;
              RSys 4 [98] [[97]] [5] [] 3%Z] in
